@@ -17,7 +17,7 @@ EXPLANATION = (
     "The solver chooses a script of k steps over {start a GET on host A or B (the caller reads the body and releases), "
     "peer answers the oldest unanswered request of a connection with a complete keep-alive response echoing that "
     "request's path - optionally followed by surplus bytes (a second response / garbage), optionally truncated, "
-    "optionally with Connection: close -, peer sends an unsolicited complete response on an idle connection, peer closes "
+    "optionally with Connection: close -, peer sends an unsolicited complete response - or only the beginning of one - on an idle connection, peer closes "
     "the connection, caller cancels}. Every response delivered to a caller must echo that caller's own request path "
     "(or the call fails); a connection that saw surplus or unsolicited bytes, a truncated body, an error or a cancel must "
     "not serve a later request; connections are only reused for the same host, port and scheme.")
@@ -131,7 +131,7 @@ def history(ctx, k=5, first=(), hosts=("a", "b")):
             if pending > 0:
                 enabled += [("answer", j), ("answer+surplus", j), ("answer-truncated", j), ("answer-close", j)]
             else:
-                enabled += [("unsolicited", j)]
+                enabled += [("unsolicited", j), ("unsolicited-partial", j)]
             enabled += [("peer-eof", j)]
         for j, call in enumerate(calls):
             if not call["task"].done():
@@ -173,6 +173,11 @@ def history(ctx, k=5, first=(), hosts=("a", "b")):
             c = conns[op[1]]
             c["proto"].data_received(_resp(b"JUNK"))
             taint(c, "unsolicited-response-while-idle")
+        elif op[0] == "unsolicited-partial":
+            # the beginning of a message (status line and half a header) with nobody waiting for it
+            c = conns[op[1]]
+            c["proto"].data_received(b"HTTP/1.1 404 Stale\r\nX-Stale: ")
+            taint(c, "unsolicited-partial-message-while-idle")
         elif op[0] == "peer-eof":
             c = conns[op[1]]
             c["proto"].connection_lost(None)
@@ -255,4 +260,4 @@ REQUIRED_OUTCOMES = ("1req:1conn", "2req:1conn", "2req:2conn")
 
 def bounds(tier):
     return {"steps": "k=5 (quick) / 7; first step GET on host a, second each enabled operation (one job each)",
-            "requests": "up to 4 GETs on 2 hosts; one job with three endpoints that share a host name (http://a, http://a:81, https://a)", "time": "up to two advances of virtual time (10 s / 6 s) per history; keepalive_timeout 15 s", "peer": "answer / answer+surplus / truncated / Connection: close / unsolicited response / EOF on any open connection; caller cancel"}
+            "requests": "up to 4 GETs on 2 hosts; one job with three endpoints that share a host name (http://a, http://a:81, https://a)", "time": "up to two advances of virtual time (10 s / 6 s) per history; keepalive_timeout 15 s", "peer": "answer / answer+surplus / truncated / Connection: close / unsolicited response (complete or partial) / EOF on any open connection; caller cancel"}
